@@ -773,7 +773,7 @@ namespace
                 {
                   if (std::isnan(c[4 + k])) continue;
                   ++stats.checks; ++stats.by_check[k == 0 ? "distance-from" : "distance-along"]; ++stats.values;
-                  if (!(std::fabs(got[k] - c[4 + k]) <= abs_ + rel * std::max(std::fabs(got[k]), std::fabs(c[4 + k]))))
+                  if (!std::isfinite(got[k]) || !(std::fabs(got[k] - c[4 + k]) <= abs_ + rel * std::max(std::fabs(got[k]), std::fabs(c[4 + k]))))
                     mism(k == 0 ? "distance-from" : "distance-along",
                          "row [" + fmt(c[0]) + "," + fmt(c[1]) + "," + fmt(c[2]) + "," + fmt(c[3]) + "]: distance differs from the planar construction", k, fmt(got[k]), fmt(c[4 + k]));
                 }
@@ -813,7 +813,7 @@ namespace
               for (int k = 0; k < 2; ++k)
                 {
                   ++stats.checks; ++stats.by_check[k == 0 ? "distance-from" : "distance-along"]; ++stats.values;
-                  if (!(std::fabs(got[k] - want[k]) <= abs_ + rel * std::max(std::fabs(got[k]), std::fabs(want[k]))))
+                  if (!std::isfinite(got[k]) || !(std::fabs(got[k] - want[k]) <= abs_ + rel * std::max(std::fabs(got[k]), std::fabs(want[k]))))
                     mism(k == 0 ? "distance-from" : "distance-along",
                          "constructed point [" + fmt(x) + "," + fmt(y) + "," + fmt(z) + "," + fmt(depth) + "] (t=" + fmt(c[0]) + " km, d=" + fmt(c[1]) + " km)", k, fmt(got[k]), fmt(want[k]));
                 }
